@@ -143,6 +143,34 @@ Definition fmt_g14 (q : Q) : string :=
     let '(m, e) := if (m =? pow10 sig_digits)%Z then (pow10 (sig_digits - 1), (e + 1)%Z) else (m, e) in
     (if (n <? 0)%Z then "-" else "") ++ layout_g (strip_trailing_zeros (z_to_dec m)) e.
 
+
+(* ---- ADDITIVE: "%.<sd>g" for any number of significant digits (fmt_g14 = fmt_g 14) ---- *)
+Definition layout_gn (sd : N) (digits : string) (e : Z) : string :=
+  if ((e <? -4) || (Z.of_N sd <=? e))%Z then
+    match digits with
+    | String c EmptyString => String c ("e" ++ exp_text e)
+    | String c rest => String c ("." ++ rest ++ "e" ++ exp_text e)
+    | EmptyString => "0"
+    end
+  else if (0 <=? e)%Z then
+    let ip := S (Z.to_nat e) in
+    let len := String.length digits in
+    if Nat.leb len ip then digits ++ zeros (ip - len)
+    else substring 0 ip digits ++ "." ++ substring ip (len - ip) digits
+  else "0." ++ zeros (Z.to_nat (- e - 1)) ++ digits.
+
+Definition fmt_g (sd : N) (q : Q) : string :=
+  let n := Qnum q in
+  let d := Zpos (Qden q) in
+  if (n =? 0)%Z then "0"
+  else if q_is_int q && (Z.abs n <? pow10 sd)%Z then z_to_dec n
+  else
+    let a := Z.abs n in
+    let e := dec_exponent a d in
+    let m := round_scaled a d (Z.of_N sd - 1 - e) in
+    let '(m, e) := if (m =? pow10 sd)%Z then (pow10 (sd - 1), (e + 1)%Z) else (m, e) in
+    (if (n <? 0)%Z then "-" else "") ++ layout_gn sd (strip_trailing_zeros (z_to_dec m)) e.
+
 (* ---- Lua 5.3: integer and float subtypes ---- *)
 
 Fixpoint looks_like_int (s : string) : bool :=
